@@ -23,9 +23,9 @@ PROPS = {
                            {"test": "^TestC01Tracker$", "shards": 1, "checks": 8, "timeout": 600},
                            {"test": "^TestC01Register$", "shards": 1, "checks": 150, "timeout": 600}]},
         "thorough": {"runs": [
-            {"test": "^TestC01$", "shards": 16, "checks": 150000, "timeout": 3000, "group": 0},
+            {"test": "^TestC01$", "shards": 16, "checks": 97000, "timeout": 3000, "group": 0},
             {"test": "^TestC01Tracker$", "shards": 2, "checks": 150, "timeout": 3000, "group": 0},
-            {"test": "^TestC01Register$", "shards": 1, "checks": 5000, "timeout": 3000, "group": 0},
+            {"test": "^TestC01Register$", "shards": 1, "checks": 3200, "timeout": 3000, "group": 0},
             {"fuzz": "^FuzzC01$", "test": "FuzzC01", "fuzztime": "120s", "timeout": 400, "group": 1, "weight": 16},
             {"fuzz": "^FuzzC01Decode$", "test": "FuzzC01Decode", "fuzztime": "120s", "timeout": 400, "group": 2, "weight": 16},
         ]},
@@ -44,7 +44,7 @@ PROPS = {
                         "passwords <= 72 bytes (bcrypt limit)"],
         "quick": {"runs": [{"test": "^TestC04$", "shards": 16, "checks": 500, "timeout": 300},
                            {"test": "^TestC04Net$", "shards": 1, "timeout": 600}]},
-        "thorough": {"runs": [{"test": "^TestC04$", "shards": 16, "checks": 12000, "timeout": 3000},
+        "thorough": {"runs": [{"test": "^TestC04$", "shards": 16, "checks": 7800, "timeout": 3000},
                               {"test": "^TestC04Net$", "shards": 2, "timeout": 600}]},
     },
     "C16": {
@@ -67,9 +67,9 @@ PROPS = {
         ]},
         "thorough": {"runs": [
             {"test": "^TestC16Exhaustive$", "shards": 4, "timeout": 600},
-            {"test": "^TestC16Sampled$", "shards": 8, "checks": 60000, "timeout": 3000},
-            {"test": "^TestC16Wire$", "shards": 4, "checks": 4000, "timeout": 3000},
-            {"test": "^TestC16Dir$", "shards": 4, "checks": 50000, "timeout": 3000},
+            {"test": "^TestC16Sampled$", "shards": 8, "checks": 39000, "timeout": 3000},
+            {"test": "^TestC16Wire$", "shards": 4, "checks": 2600, "timeout": 3000},
+            {"test": "^TestC16Dir$", "shards": 4, "checks": 32000, "timeout": 3000},
             {"test": "^TestC16Authz$", "shards": 16, "timeout": 1200, "group": 1},
         ]},
     },
@@ -92,11 +92,11 @@ PROPS = {
                            {"test": "^TestC15LeadingNewline$", "shards": 1, "checks": 30, "timeout": 300},
                            {"test": "^TestC15OperatorFile$", "shards": 2, "checks": 30, "timeout": 600},
                            {"test": "^TestC15ManyAccounts$", "shards": 1, "checks": 3, "timeout": 600}]},
-        "thorough": {"runs": [{"test": "^TestC15$", "shards": 12, "checks": 1500, "timeout": 3400},
-                              {"test": "^TestC15Burst$", "shards": 3, "checks": 1500, "timeout": 3400},
-                              {"test": "^TestC15Unwritable$", "shards": 1, "checks": 3000, "timeout": 3400},
+        "thorough": {"runs": [{"test": "^TestC15$", "shards": 12, "checks": 970, "timeout": 3400},
+                              {"test": "^TestC15Burst$", "shards": 3, "checks": 970, "timeout": 3400},
+                              {"test": "^TestC15Unwritable$", "shards": 1, "checks": 1900, "timeout": 3400},
                               {"test": "^TestC15LeadingNewline$", "shards": 1, "checks": 300, "timeout": 600},
-                              {"test": "^TestC15OperatorFile$", "shards": 4, "checks": 1500, "timeout": 3400},
+                              {"test": "^TestC15OperatorFile$", "shards": 4, "checks": 970, "timeout": 3400},
                               {"test": "^TestC15ManyAccounts$", "shards": 2, "checks": 20, "timeout": 1800}]},
     },
     "C05": {
@@ -117,8 +117,8 @@ PROPS = {
                            {"test": "^TestC05$", "shards": 15, "checks": 160, "timeout": 600},
                            {"test": "^TestC05GhostCategory$", "shards": 1, "checks": 150, "timeout": 600}]},
         "thorough": {"runs": [{"test": "^TestC05Matrix$", "shards": 16, "timeout": 1200},
-                              {"test": "^TestC05$", "shards": 15, "checks": 6400, "timeout": 3400},
-                              {"test": "^TestC05GhostCategory$", "shards": 1, "checks": 6000, "timeout": 3400}]},
+                              {"test": "^TestC05$", "shards": 15, "checks": 4100, "timeout": 3400},
+                              {"test": "^TestC05GhostCategory$", "shards": 1, "checks": 3900, "timeout": 3400}]},
     },
     "C06": {
         "title": "No privilege amplification; protected users cannot be kicked",
@@ -140,14 +140,14 @@ PROPS = {
                            {"test": "^TestC06GraceWindow$", "shards": 1, "checks": 100, "timeout": 600},
                            {"test": "^TestC06TwoCreators$", "shards": 2, "checks": 25, "timeout": 600},
                            {"test": "^TestC06Bystander$", "shards": 1, "checks": 60, "timeout": 600}]},
-        "thorough": {"runs": [{"test": "^TestC06Create$", "shards": 10, "checks": 20000, "timeout": 3400},
+        "thorough": {"runs": [{"test": "^TestC06Create$", "shards": 10, "checks": 13000, "timeout": 3400},
                               {"test": "^TestC06ExtraBit$", "shards": 2, "timeout": 1200},
-                              {"test": "^TestC06Kick$", "shards": 4, "checks": 5000, "timeout": 3400},
-                              {"test": "^TestC06LoginWindow$", "shards": 1, "checks": 3000, "timeout": 3400},
-                              {"test": "^TestC06RenameForm$", "shards": 2, "checks": 8000, "timeout": 3400},
-                              {"test": "^TestC06GraceWindow$", "shards": 1, "checks": 5000, "timeout": 3400},
-                              {"test": "^TestC06TwoCreators$", "shards": 2, "checks": 1500, "timeout": 3400},
-                              {"test": "^TestC06Bystander$", "shards": 1, "checks": 3000, "timeout": 3400}]},
+                              {"test": "^TestC06Kick$", "shards": 4, "checks": 3200, "timeout": 3400},
+                              {"test": "^TestC06LoginWindow$", "shards": 1, "checks": 1900, "timeout": 3400},
+                              {"test": "^TestC06RenameForm$", "shards": 2, "checks": 5200, "timeout": 3400},
+                              {"test": "^TestC06GraceWindow$", "shards": 1, "checks": 3200, "timeout": 3400},
+                              {"test": "^TestC06TwoCreators$", "shards": 2, "checks": 970, "timeout": 3400},
+                              {"test": "^TestC06Bystander$", "shards": 1, "checks": 1900, "timeout": 3400}]},
     },
     "C07": {
         "title": "All filesystem effects stay inside the file root / config dir",
@@ -165,9 +165,9 @@ PROPS = {
         "assumptions": ["requester holds all privileges (C05 is checked separately)"],
         "quick": {"runs": [{"test": "^TestC07$", "shards": 16, "checks": 700, "timeout": 600},
                            {"test": "^TestC07LinkedRoot$", "shards": 2, "checks": 150, "timeout": 600}]},
-        "thorough": {"runs": [{"test": "^TestC07$", "shards": 16, "checks": 14000, "timeout": 3400},
+        "thorough": {"runs": [{"test": "^TestC07$", "shards": 16, "checks": 9100, "timeout": 3400},
                               {"fuzz": "^FuzzC07$", "test": "FuzzC07", "fuzztime": "180s", "timeout": 600, "group": 1, "weight": 16},
-                              {"test": "^TestC07LinkedRoot$", "shards": 4, "checks": 3000, "timeout": 1800}]},
+                              {"test": "^TestC07LinkedRoot$", "shards": 4, "checks": 1900, "timeout": 1800}]},
     },
     "C08": {
         "title": "Downloads deliver exactly the file's bytes",
@@ -187,7 +187,7 @@ PROPS = {
                            {"test": "^TestC08$", "shards": 15, "checks": 430, "timeout": 600}]},
         "thorough": {"runs": [{"test": "^TestC08Slow$", "shards": 1, "timeout": 900},
                               {"test": "^TestC08ManyGrants$", "shards": 1, "checks": 300, "timeout": 3400},
-                              {"test": "^TestC08$", "shards": 15, "checks": 6400, "timeout": 3400}]},
+                              {"test": "^TestC08$", "shards": 15, "checks": 4100, "timeout": 3400}]},
     },
     "C09": {
         "title": "Uploads are exact, published atomically, and resumable after any cut",
@@ -204,9 +204,9 @@ PROPS = {
         "quick": {"runs": [{"test": "^TestC09$", "shards": 13, "checks": 250, "timeout": 600},
                            {"test": "^TestC09DoubleGrant$", "shards": 2, "checks": 220, "timeout": 600},
                            {"test": "^TestC09HugeAnnounced$", "shards": 1, "checks": 120, "timeout": 600}]},
-        "thorough": {"runs": [{"test": "^TestC09$", "shards": 13, "checks": 4000, "timeout": 3400},
-                              {"test": "^TestC09DoubleGrant$", "shards": 2, "checks": 6000, "timeout": 3400},
-                              {"test": "^TestC09HugeAnnounced$", "shards": 1, "checks": 4000, "timeout": 3400}]},
+        "thorough": {"runs": [{"test": "^TestC09$", "shards": 13, "checks": 2600, "timeout": 3400},
+                              {"test": "^TestC09DoubleGrant$", "shards": 2, "checks": 3900, "timeout": 3400},
+                              {"test": "^TestC09HugeAnnounced$", "shards": 1, "checks": 2600, "timeout": 3400}]},
     },
     "C10": {
         "title": "Folder transfers reproduce the tree, item by item",
@@ -224,8 +224,8 @@ PROPS = {
         "assumptions": ["PreserveResourceForks off, plain files without stored forks (the property's quantifier); stored-fork behaviour is only an observation in DESIGN.md"],
         "quick": {"runs": [{"test": "^TestC10Download$", "shards": 8, "checks": 250, "timeout": 600},
                            {"test": "^TestC10Upload$", "shards": 8, "checks": 250, "timeout": 600}]},
-        "thorough": {"runs": [{"test": "^TestC10Download$", "shards": 8, "checks": 3000, "timeout": 3400},
-                              {"test": "^TestC10Upload$", "shards": 8, "checks": 3000, "timeout": 3400}]},
+        "thorough": {"runs": [{"test": "^TestC10Download$", "shards": 8, "checks": 1900, "timeout": 3400},
+                              {"test": "^TestC10Upload$", "shards": 8, "checks": 1900, "timeout": 3400}]},
     },
     "C02": {
         "title": "Segmentation-independent parsing of client byte streams",
@@ -243,8 +243,8 @@ PROPS = {
         "assumptions": ["net.Pipe: one server-side Read never spans two client Writes, so the Write sequence is the segmentation the server sees"],
         "quick": {"runs": [{"test": "^TestC02Interleave$", "shards": 1, "checks": 80, "timeout": 600},
                            {"test": "^TestC02$", "shards": 15, "checks": 120, "timeout": 600}]},
-        "thorough": {"runs": [{"test": "^TestC02Interleave$", "shards": 1, "checks": 3000, "timeout": 3400},
-                              {"test": "^TestC02$", "shards": 15, "checks": 3000, "timeout": 3400},
+        "thorough": {"runs": [{"test": "^TestC02Interleave$", "shards": 1, "checks": 1900, "timeout": 3400},
+                              {"test": "^TestC02$", "shards": 15, "checks": 1900, "timeout": 3400},
                               {"fuzz": "^FuzzC02$", "test": "FuzzC02", "fuzztime": "180s", "timeout": 600, "group": 1, "weight": 16}]},
     },
     "C18": {
@@ -267,12 +267,12 @@ PROPS = {
                            {"test": "^TestC18KeyBlockScalar$", "shards": 1, "checks": 20, "timeout": 300},
                            {"test": "^TestC18DeepPath$", "shards": 2, "checks": 40, "timeout": 600},
                            {"test": "^TestC18ListBurst$", "shards": 2, "checks": 40, "timeout": 600}]},
-        "thorough": {"runs": [{"test": "^TestC18$", "shards": 12, "checks": 2500, "timeout": 3400},
-                              {"test": "^TestC18Burst$", "shards": 4, "checks": 2500, "timeout": 3400},
+        "thorough": {"runs": [{"test": "^TestC18$", "shards": 12, "checks": 1600, "timeout": 3400},
+                              {"test": "^TestC18Burst$", "shards": 4, "checks": 1600, "timeout": 3400},
                               {"test": "^TestC18LeadingNewline$", "shards": 1, "checks": 200, "timeout": 600},
                               {"test": "^TestC18KeyBlockScalar$", "shards": 1, "checks": 200, "timeout": 600},
                               {"test": "^TestC18DeepPath$", "shards": 2, "checks": 300, "timeout": 1800},
-                              {"test": "^TestC18ListBurst$", "shards": 4, "checks": 1500, "timeout": 3000}]},
+                              {"test": "^TestC18ListBurst$", "shards": 4, "checks": 970, "timeout": 3000}]},
     },
     "C12": {
         "title": "Chat reaches exactly its audience",
@@ -290,7 +290,7 @@ PROPS = {
         "quick": {"runs": [{"test": "^TestC12$", "shards": 10, "checks": 100, "timeout": 600},
                            {"test": "^TestC12Burst$", "shards": 6, "checks": 25, "timeout": 600},
                            {"test": "^TestC12ManyChats$", "shards": 2, "checks": 2, "timeout": 900}]},
-        "thorough": {"runs": [{"test": "^TestC12$", "shards": 16, "checks": 2500, "timeout": 3400, "group": 0},
+        "thorough": {"runs": [{"test": "^TestC12$", "shards": 16, "checks": 1600, "timeout": 3400, "group": 0},
                               {"test": "^TestC12Burst$", "shards": 16, "checks": 400, "timeout": 3400, "group": 1},
                               {"test": "^TestC12ManyChats$", "shards": 4, "checks": 15, "timeout": 3000}]},
     },
@@ -316,11 +316,11 @@ PROPS = {
                            {"test": "^TestC13AwayReorder$", "shards": 1, "checks": 40, "timeout": 900},
                            {"test": "^TestC13SchedPoint$", "shards": 1, "checks": 150, "timeout": 900},
                            {"test": "^TestC13AwayAtLeave$", "shards": 1, "checks": 100, "timeout": 900}]},
-        "thorough": {"runs": [{"test": "^TestC13$", "shards": 11, "checks": 2000, "timeout": 3400},
+        "thorough": {"runs": [{"test": "^TestC13$", "shards": 11, "checks": 1300, "timeout": 3400},
                               {"test": "^TestC13Wrap$", "shards": 3, "checks": 500, "timeout": 3400},
-                              {"test": "^TestC13AwayReorder$", "shards": 1, "checks": 1500, "timeout": 3400},
-                              {"test": "^TestC13SchedPoint$", "shards": 1, "checks": 5000, "timeout": 3400},
-                              {"test": "^TestC13AwayAtLeave$", "shards": 1, "checks": 4000, "timeout": 3400}]},
+                              {"test": "^TestC13AwayReorder$", "shards": 1, "checks": 970, "timeout": 3400},
+                              {"test": "^TestC13SchedPoint$", "shards": 1, "checks": 3200, "timeout": 3400},
+                              {"test": "^TestC13AwayAtLeave$", "shards": 1, "checks": 2600, "timeout": 3400}]},
     },
     "C17": {
         "title": "Disconnects and bans are enforced at the door",
@@ -340,8 +340,8 @@ PROPS = {
                            {"test": "^TestC17Burst$", "shards": 2, "checks": 60, "timeout": 600},
                            {"test": "^TestC17Net$", "shards": 1, "timeout": 600},
                            {"test": "^TestC17Main$", "shards": 2, "checks": 3, "timeout": 900}]},
-        "thorough": {"runs": [{"test": "^TestC17$", "shards": 13, "checks": 2500, "timeout": 3400},
-                              {"test": "^TestC17Burst$", "shards": 2, "checks": 3700, "timeout": 3400},
+        "thorough": {"runs": [{"test": "^TestC17$", "shards": 13, "checks": 1600, "timeout": 3400},
+                              {"test": "^TestC17Burst$", "shards": 2, "checks": 2400, "timeout": 3400},
                               {"test": "^TestC17Net$", "shards": 1, "timeout": 600},
                               {"test": "^TestC17Main$", "shards": 4, "checks": 40, "timeout": 3400}]},
     },
@@ -365,9 +365,9 @@ PROPS = {
                            {"test": "^TestC11Burst$", "shards": 3, "checks": 100, "timeout": 600},
                            {"test": "^TestC11BigSizes$", "shards": 1, "checks": 60, "timeout": 600},
                            {"test": "^TestC11WideFolder$", "shards": 1, "checks": 1, "timeout": 600}]},
-        "thorough": {"runs": [{"test": "^TestC11$", "shards": 13, "checks": 2500, "timeout": 3400},
-                              {"test": "^TestC11Burst$", "shards": 3, "checks": 20000, "timeout": 3400},
-                              {"test": "^TestC11BigSizes$", "shards": 2, "checks": 1500, "timeout": 3400},
+        "thorough": {"runs": [{"test": "^TestC11$", "shards": 13, "checks": 1600, "timeout": 3400},
+                              {"test": "^TestC11Burst$", "shards": 3, "checks": 13000, "timeout": 3400},
+                              {"test": "^TestC11BigSizes$", "shards": 2, "checks": 970, "timeout": 3400},
                               {"test": "^TestC11WideFolder$", "shards": 1, "checks": 6, "timeout": 3400}]},
     },
     "C14": {
@@ -395,10 +395,10 @@ PROPS = {
                            {"test": "^TestC14InfoTransfers$", "shards": 2, "checks": 10, "timeout": 900},
                            {"test": "^TestC14Live$", "shards": 2, "timeout": 600, "weight": 2},
                            {"test": "^TestC14LiveStalled$", "shards": 2, "timeout": 600}]},
-        "thorough": {"runs": [{"test": "^TestC14$", "shards": 12, "checks": 1200, "timeout": 3400, "group": 0},
+        "thorough": {"runs": [{"test": "^TestC14$", "shards": 12, "checks": 780, "timeout": 3400, "group": 0},
                               {"test": "^TestC14Sizes$", "shards": 4, "timeout": 1800, "group": 0},
-                              {"test": "^TestC14Stalled$", "shards": 2, "checks": 1500, "timeout": 1800, "group": 0},
-                              {"test": "^TestC14InfoTransfers$", "shards": 2, "checks": 600, "timeout": 3000, "group": 0},
+                              {"test": "^TestC14Stalled$", "shards": 2, "checks": 400, "timeout": 1800, "group": 0},
+                              {"test": "^TestC14InfoTransfers$", "shards": 2, "checks": 390, "timeout": 3000, "group": 0},
                               {"test": "^TestC14Live$", "shards": 1, "timeout": 900, "group": 1, "weight": 16},
                               {"test": "^TestC14Live$", "shards": 1, "timeout": 900, "group": 2, "weight": 16, "race": True, "env": {"VERIF_LIVE_BUDGET": "120"}},
                               {"test": "^TestC14LiveStalled$", "shards": 4, "timeout": 900}]},
@@ -420,7 +420,7 @@ PROPS = {
         "quick": {"runs": [{"test": "^TestC19$", "shards": 12, "checks": 60, "timeout": 900},
                            {"test": "^TestC19Live$", "shards": 2, "timeout": 600, "weight": 2},
                            {"test": "^TestC19Main$", "shards": 2, "checks": 3, "timeout": 900}]},
-        "thorough": {"runs": [{"test": "^TestC19$", "shards": 12, "checks": 2500, "timeout": 3400, "group": 0},
+        "thorough": {"runs": [{"test": "^TestC19$", "shards": 12, "checks": 1600, "timeout": 3400, "group": 0},
                               {"test": "^TestC19Live$", "shards": 1, "timeout": 900, "group": 1, "weight": 16},
                               {"test": "^TestC19Live$", "shards": 1, "timeout": 900, "group": 2, "weight": 16, "race": True, "env": {"VERIF_LIVE_BUDGET": "120"}},
                               {"test": "^TestC19Main$", "shards": 4, "checks": 40, "timeout": 3400}]},
@@ -445,7 +445,7 @@ PROPS = {
                            {"test": "^TestC20Acked$", "shards": 2, "checks": 60, "timeout": 900},
                            {"test": "^TestC20Main$", "shards": 2, "checks": 6, "timeout": 900}]},
         "thorough": {"runs": [{"test": "^TestC20$", "shards": 14, "checks": 150, "timeout": 3400},
-                              {"test": "^TestC20Acked$", "shards": 2, "checks": 3000, "timeout": 3400},
+                              {"test": "^TestC20Acked$", "shards": 2, "checks": 1900, "timeout": 3400},
                               {"test": "^TestC20Main$", "shards": 4, "checks": 120, "timeout": 3400}]},
     },
     "C03": {
@@ -479,7 +479,7 @@ PROPS = {
         "quick": {"runs": [{"test": "^TestC03$", "shards": 15, "checks": 100, "timeout": 900},
                            {"test": "^TestC03Net$", "shards": 1, "timeout": 900},
                            {"test": "^TestC03Stalled$", "shards": 1, "checks": 6, "timeout": 900}]},
-        "thorough": {"runs": [{"test": "^TestC03$", "shards": 16, "checks": 3000, "timeout": 3400, "group": 0},
+        "thorough": {"runs": [{"test": "^TestC03$", "shards": 16, "checks": 1900, "timeout": 3400, "group": 0},
                               {"fuzz": "^FuzzC03$", "test": "FuzzC03", "fuzztime": "240s", "timeout": 900, "group": 1, "weight": 16},
                               {"test": "^TestC03Net$", "shards": 2, "timeout": 900, "group": 2, "weight": 8},
                               {"test": "^TestC03Stalled$", "shards": 2, "checks": 60, "timeout": 1800, "group": 2, "weight": 2},
@@ -491,22 +491,22 @@ PROPS = {
 _LATER = {
     "C01": "TestC01Register: the per-tracker send path (hook VerifRegister) with name / description / password lengths from {0,1,50,127,128,200,237..240,254,255}: the tracker socket receives exactly one datagram that equals the reference encoding (non-trivial = record longer than 508 bytes); TestC01 scribbles over the source buffer after constructing a field (the field must have kept its own copy); the date case draws the host's time zone (fixed offsets -12:00..+14:00 in quarter hours): the same wall-clock reading must encode to the same bytes",
     "C02": "folder uploads leave leftovers (partial and complete items) that both partitions must agree on; the session client's replies are compared in order; a banner may be configured (same in both worlds); the sessions also run against a server that keeps resource and information forks in side files (both worlds alike), so the stored forks are part of the compared state",
-    "C03": "while the hostile connections end, three goroutines read the server counters (Stats.Values) in a loop: a reader that blocks forever is a wedge (watchdog); TestC03Net: transfer-port storm kinds, the sentinel downloads a file of its own root before, during and after each batch and after bursts of 40 simultaneous transfer connections, and must get the file's bytes; one valid transfer grant presented on three transfer connections at the same instant (XRef replayed); TestC03Stalled: 63-200 logged-in peers stop reading while a broadcast waits for each of them: the well-behaved client's requests are answered, a newcomer can log in, and the user list is back to the well-behaved clients once the peers are gone; in a third of the cases a hostile user invites the sentinel to a new private chat and leaves it at once, and the sentinel accepts: it gets an answer and stays connected",
+    "C03": "while the hostile connections end, three goroutines read the server counters (Stats.Values) in a loop: a reader that blocks forever is a wedge (watchdog); TestC03Net: transfer-port storm kinds, the sentinel downloads a file of its own root before, during and after each batch and after bursts of 40 simultaneous transfer connections, and must get the file's bytes; one valid transfer grant presented on three transfer connections at the same instant (XRef replayed); TestC03Stalled: 63-200 logged-in peers stop reading while a broadcast waits for each of them: the well-behaved client's requests are answered, a newcomer can log in, and the user list is back to the well-behaved clients once the peers are gone; in a third of the cases a hostile user invites the sentinel to a new private chat and leaves it at once, and the sentinel accepts: it gets an answer and stays connected; in a third of the cases a hostile user has a user of the privilege-less account disconnected with a well-formed request (the counters must still come out right)",
     "C04": "logins whose file names are odd (.ops, a.b, x.yaml, -dash, ~t, #h), the data-size word of the login transaction varied, creations that must be refused (login with a path separator, 250 bytes) made before the attempt: none of them may open a door; logins that are an existing login (or the empty guest login) followed by one or two NUL bytes, with that account's password: another byte string, no account; TestC04Net (child process, production accept loop): a wrong password, an unknown login and a correct login from a banned address each get the handshake reply, exactly one error reply or ban notice, and then the close (within 30 s)",
     "C05": "cells added: ../-names in upload / rename, side-file kinds, an account record without a name (the logged-in name must be the one the account allows); TestC05GhostCategory: post-article to a news path that does not exist, by a requester without create-category / create-bundle: no grouping may appear in memory or in the file",
-    "C06": "TestC06RenameForm (update-user rename form), TestC06GraceWindow, TestC06TwoCreators (two creators at one instant: neither account holds a bit its creator lacks), TestC06Bystander (a protected user sharing the kicked user's address is neither dropped nor refused), schedule point before registry delete in TestC06LoginWindow; creators whose privileges were set at run time (set-user) keep the 24 bits that name no privilege, and may request them: the created account holds exactly what was requested; creations also arrive as the second entry of a batch request whose first entry edits another account (each entry is judged on its own; the edited account must still be there)",
+    "C06": "TestC06RenameForm (update-user rename form), TestC06GraceWindow, TestC06TwoCreators (two creators at one instant: neither account holds a bit its creator lacks), TestC06Bystander (a protected user sharing the kicked user's address is neither dropped nor refused), schedule point before registry delete in TestC06LoginWindow; creators whose privileges were set at run time (set-user) keep the 24 bits that name no privilege, and may request them: the created account holds exactly what was requested; creations also arrive as the second entry of a batch request whose first entry edits another account (each entry is judged on its own; the edited account must still be there); in TestC06Kick a third of the requests against protected users carry the user id four bytes wide (sent from an administrator connection of their own)",
     "C07": "aliases are made in one folder and then moved to another (shallower or deeper) one: the link must still resolve inside the root; an account with a root of its own is edited through set-user and the server restarted; the file root is spelled with trailing separators / dot segments / relative forms; in a third of the per-account-root cases the root folder has been renamed away before the requests (the account then has no files; nothing of the server's tree may be touched, listed or disclosed instead); a third of the folder uploads go into a folder that holds partial files exactly where the server will look for the streamed items (the leftovers of a cut earlier upload), so that the resume branch is taken with traversal item paths; TestC07LinkedRoot: the file root is a symbolic link; delete / rename / move / comment / alias requests whose name resolves to the root itself (.., empty, ., /, dir/..) with and without a path: nothing outside the real root changes - the link and its would-be side files stay - and the root stays reachable",
-    "C08": "client-info requests between grant and transfer; comments of 32 600-65 535 bytes; paths 254-300 folders deep; TestC08ManyGrants: up to hundreds of outstanding grants (files and banner) redeemed in drawn order, each delivers its own bytes; TestC08Slow (child process): 24 MiB file, the reader pauses 33 s after the first MiB and must still get every byte; previews that carry a resume offset (bare data from the offset on); resume data layouts: data fork entry alone, followed by a resource fork entry, or with the fork type in lower case / empty (then the server may resume at the offset or at 0, reply and stream must agree)",
-    "C09": "a download of the name while the upload is partial (must not serve the partial under the final name); info forks without the comment-size word; TestC09HugeAnnounced: announced data-fork sizes of 2^31..2^32-1 with a stream that ends early: no file under the final name, the partial holds a prefix; between cut and resume a move request for the unfinished entry: whether the server leaves it or takes the partial data along, the name is not published and the upload goes on where the partial data is; slow writers: 2 / 11 / 45 fake seconds pass between the segments of the client's stream",
-    "C10": "download trees are decorated with stored resource / info side files, aliases and leftovers of interrupted uploads (X.incomplete): each item's bytes must match its own header and names arrive unchanged; PreserveResourceForks drawn in downloads; after preserve uploads the stored forks are checked; a third of the decorated files have an information fork only (what set-comment leaves behind): three forks with an empty resource fork are announced and the rest of the tree must still arrive; one name in fifteen is padded to 200-244 bytes (files; the .incomplete suffix must still fit the file system) or 244-255 bytes (folders); a sixth of the pre-seeded places hold an alias whose target is gone: there is no file yet, the item must be sent and stored",
-    "C11": "comments of 33 000 / 60 000 bytes; every fourth listed file is downloaded through to its bytes; TestC11BigSizes: sparse files of 2^24..2^32-1 bytes, list == get-info == download reply == size on disk; TestC11WideFolder: folders of 65 536 / 65 537 / 65 540 visible entries plus hidden ones are listed with their entry count; create-folder requests whose path names a folder that is not there: nothing appears on disk; file names draw their extension from the server's type table plus thirty common ones it does not know",
+    "C08": "client-info requests between grant and transfer; comments of 32 600-65 535 bytes; paths 254-300 folders deep; TestC08ManyGrants: up to hundreds of outstanding grants (files and banner) redeemed in drawn order, each delivers its own bytes; TestC08Slow (child process): 24 MiB file, the reader pauses 33 s after the first MiB and must still get every byte; previews that carry a resume offset (bare data from the offset on); resume data layouts: data fork entry alone, followed by a resource fork entry, or with the fork type in lower case / empty (then the server may resume at the offset or at 0, reply and stream must agree); a stored information fork may carry 1 or 3 bytes of padding after its comment",
+    "C09": "a download of the name while the upload is partial (must not serve the partial under the final name); info forks without the comment-size word; TestC09HugeAnnounced: announced data-fork sizes of 2^31..2^32-1 with a stream that ends early: no file under the final name, the partial holds a prefix; between cut and resume a move request for the unfinished entry: whether the server leaves it or takes the partial data along, the name is not published and the upload goes on where the partial data is; slow writers: 2 / 11 / 45 fake seconds pass between the segments of the client's stream; every uploaded information fork carries two different dates; with kept forks a later download returns type, creator, both dates and the comment as uploaded",
+    "C10": "download trees are decorated with stored resource / info side files, aliases and leftovers of interrupted uploads (X.incomplete): each item's bytes must match its own header and names arrive unchanged; PreserveResourceForks drawn in downloads; after preserve uploads the stored forks are checked; a third of the decorated files have an information fork only (what set-comment leaves behind): three forks with an empty resource fork are announced and the rest of the tree must still arrive; one name in fifteen is padded to 200-244 bytes (files; the .incomplete suffix must still fit the file system) or 244-255 bytes (folders); a sixth of the pre-seeded places hold an alias whose target is gone: there is no file yet, the item must be sent and stored; now and then an entry below has the name of the transferred folder itself (a file, or a folder holding a file of that name)",
+    "C11": "comments of 33 000 / 60 000 bytes; every fourth listed file is downloaded through to its bytes; TestC11BigSizes: sparse files of 2^24..2^32-1 bytes, list == get-info == download reply == size on disk; TestC11WideFolder: folders of 65 536 / 65 537 / 65 540 visible entries plus hidden ones are listed with their entry count; create-folder requests whose path names a folder that is not there: nothing appears on disk; file names draw their extension from the server's type table plus thirty common ones it does not know; a folder is given a comment and then deleted: nothing of it stays on disk",
     "C12": "restarts (chats are gone afterwards), invitations by non-members, the refuse-private-chat preference (decline notice names the decliner, never addressed to chat 0), names containing %, unknown chat ids other than 0; users take another name in mid-session (with or without the options field) and speak under it; TestC12ManyChats: private chats are opened until the server hands out an id whose low or high half is zero (up to 300 000; non-trivial = found): a line said there reaches the member, with that chat id, and no connected non-member",
     "C13": "set-user edits of an account whose user is connected (disconnect / same / other name), followed by the same presence comparison; names with carriage returns and line feeds; chat lines (plain and emote) between presence events",
     "C14": "latecomers who log in while the plan runs (agreements of several sizes), a 300-article news listing, requests naming unknown chats sent by a connection of their own; TestC14Stalled: the stalled clients start reading again after 1 s .. 10 min of fake time and must receive whole transactions only, every queued broadcast at most once; disconnect requests naming user ids nobody has (with and without ban option), sent by the stranger connection; request ids 0, 0xFFFFFFFF and 0x80000000 (each at most once per client); TestC14Stalled: now and then 4200 or 6000 chat lines pile up for the stalled clients; TestC14LiveStalled (production pump, real scheduler): one peer stops reading while 4200-9000 chat lines are said: the active clients receive every line and every reply",
-    "C15": "passwords of 73 / 100 / 255 bytes (bcrypt's limit is 72), names of 300 / 500 / 2000 bytes, new-user over a file that another login's record occupies; no two accounts may share a stored password hash (also the password-less ones); the administrator edits the name of the account it is logged in with and asks for it: get-user, list-users and the file show the new name; TestC15OperatorFile: the account lives in a file that is not named after its login (six file-name patterns sorting before and after <login>.yaml); 1-4 operations out of edit / password change / rename / delete / restart, and after each the listing, a fresh manager and login attempts with every password must agree with the model; TestC15ManyAccounts: 254-513 accounts exist as files at start-up (plus 0-3 made through the protocol): the listing shows each once, a sample logs in; TestC15OperatorFile also gives the login of a deleted account to a new one",
+    "C15": "passwords of 73 / 100 / 255 bytes (bcrypt's limit is 72), names of 300 / 500 / 2000 bytes, new-user over a file that another login's record occupies; no two accounts may share a stored password hash (also the password-less ones); the administrator edits the name of the account it is logged in with and asks for it: get-user, list-users and the file show the new name; TestC15OperatorFile: the account lives in a file that is not named after its login (six file-name patterns sorting before and after <login>.yaml); 1-4 operations out of edit / password change / rename / delete / restart, and after each the listing, a fresh manager and login attempts with every password must agree with the model; TestC15ManyAccounts: 254-513 accounts exist as files at start-up (plus 0-3 made through the protocol): the listing shows each once, a sample logs in; TestC15OperatorFile also gives the login of a deleted account to a new one; in a third of TestC15OperatorFile's cases the operator's file is in the older numeric form (migrated at start-up); a new-user request for the login of such an account is refused",
     "C16": "TestC16Wire: creation of shadow logins (./u, u/., U) next to an existing one, set-user spelled in another case, and the account listing fetched before and after an edit must show the edit; TestC16Authz also runs every cell with each of the 24 bits that name no privilege alone (delivered by set-user): nothing may be granted; TestC05 keeps random undefined bits on the set-user path",
-    "C17": "a protected account; kicks aimed at a user who is leaving at that instant; reloads of the ban file racing a ban (the in-memory answer is compared too); TestC17Net (child process, production accept loop): three clients from three loopback addresses, one is kicked with a ban: only its address is refused afterwards, the others reconnect; the ban file cannot be rewritten for a while (its temporary name is taken by a folder): a disconnect-with-ban that is acknowledged must be enforced by the running server; restarts and reloads go by the file; TestC17Main: the repository's main program as a child process with a configuration directory of the operator's choice (created by -init): a guest is disconnected with a temporary or permanent ban; the address is refused and another admitted, before and after a restart (SIGTERM or SIGKILL, with or without -init), and the ban file of that directory lists the address; a banned peer sends a valid login, a wrong password, an unknown login or only its handshake: each time exactly the ban notice and the end of the connection",
-    "C18": "stale paths whose last component is missing; the path field absent / empty / zero-count / truncated; delete-item followed by listings of the former sub-paths; posts after deletions keep their parent; TestC18DeepPath: bundles nested 1-40 deep with names of 1-255 bytes (encoded path up to ~5.3 KiB), a category with an article and a reply at the bottom, then nothing / reload / restart: every level lists exactly its child, the articles are listed and fetched, deleting the innermost bundle removes exactly it (non-trivial = encoded path longer than 512 bytes); the operator adds a category to the news file and reloads, a client deletes it: the file a restart would load does not hold it any more; TestC18ListBurst: 3-8 connections list the children of different bundles (3-124 categories each) and of the root at the same instant, for 3-8 rounds: every reply holds exactly the children of the path it asked about",
+    "C17": "a protected account; kicks aimed at a user who is leaving at that instant; reloads of the ban file racing a ban (the in-memory answer is compared too); TestC17Net (child process, production accept loop): three clients from three loopback addresses, one is kicked with a ban: only its address is refused afterwards, the others reconnect; the ban file cannot be rewritten for a while (its temporary name is taken by a folder): a disconnect-with-ban that is acknowledged must be enforced by the running server; restarts and reloads go by the file; TestC17Main: the repository's main program as a child process with a configuration directory of the operator's choice (created by -init): a guest is disconnected with a temporary or permanent ban; the address is refused and another admitted, before and after a restart (SIGTERM or SIGKILL, with or without -init), and the ban file of that directory lists the address; a banned peer sends a valid login, a wrong password, an unknown login or only its handshake: each time exactly the ban notice and the end of the connection; an address is banned while a connection from it is open and silent; its handshake and login afterwards get the ban notice and the close",
+    "C18": "stale paths whose last component is missing; the path field absent / empty / zero-count / truncated; delete-item followed by listings of the former sub-paths; posts after deletions keep their parent; TestC18DeepPath: bundles nested 1-40 deep with names of 1-255 bytes (encoded path up to ~5.3 KiB), a category with an article and a reply at the bottom, then nothing / reload / restart: every level lists exactly its child, the articles are listed and fetched, deleting the innermost bundle removes exactly it (non-trivial = encoded path longer than 512 bytes); the operator adds a category to the news file and reloads, a client deletes it: the file a restart would load does not hold it any more; TestC18ListBurst: 3-8 connections list the children of different bundles (3-124 categories each) and of the root at the same instant, for 3-8 rounds: every reply holds exactly the children of the path it asked about; now and then a grouping is created below a category, or an article posted to a bundle's path (the path names an item; it holds what it is given)",
     "C19": "reloads that fail (unreadable file) and posts that fail (unwritable file; the post may or may not count, nothing else may change), reloads during rounds, operator trims of the board between reads, the date stamp of each post compared with the fake clock (minute of day drawn); posts, the initial board and the agreement hold Mac Roman bytes that are not valid UTF-8; TestC19Main: the repository's main program as a child process: 1-3 times the operator rewrites Agreement.txt or MessageBoard.txt (20 / 600 / 33000 bytes) and sends SIGHUP - in half of the cases while Banlist.yaml or ThreadedNews.yaml cannot be parsed at that moment; the next guest is shown / the next reader is served exactly the rewritten text and the server is still running; when no operator edit is in the case, one more client reacts to every new-post announcement by asking for the board at once: the board it is served holds that post; a post made while the board file cannot be written is announced only if the board then holds it",
     "C20": "accounts in the legacy storage form are migrated at start-up (privileges compared over the defined bits); after every kill point the touched accounts are also deleted and, for a crashed rename, the new login is created afresh: both must be acknowledged and no other account may vanish; TestC20Acked also compares the in-memory category with the news file at each acknowledgement and includes news replies; after every kill point the accounts the interrupted update was about are also edited in place: the edit must be acknowledged, loaded by the next restart and leave every other account alone; TestC20Main: the repository's own main program (built from the current tree) is started with -init on a missing configuration directory, the administrator of the default configuration makes 1-4 acknowledged changes over loopback TCP (delete / rename / edit the default guest account, create and delete accounts, board post, news category), the process is killed at the last acknowledgement and started again with or without -init: the account directory (production loader) must hold exactly the accounts the acknowledged changes leave, board and news files the posts and categories, and the restarted server must admit the remaining accounts and refuse the deleted and renamed-away logins; after every kill point of a rename that did not go through, one process repeats the rename, creates a new account under the old login and edits it (no restart in between): both accounts are what the next restart loads",
 }
